@@ -119,10 +119,19 @@ def problems(env, cfg, tier):
         # the property's wording: "the acting entity keeps its position and holdings"
         out["C05.illegal_action_keeps_holdings"] = ~ill | (ag2.is_carrying == ag.is_carrying)
         out["C05.illegal_action_step_count_plus_one"] = s2.step_count == s.step_count + 1
-        # (that the replaced action then acts exactly as that agent's NOOP is `C05.masked_out_action_is_replaced_by_noop` on
-        # `get_valid_actions`, the first statement of `step`; a two-evaluation clause step(s, a) == step(s, a[illegal := NOOP])
-        # is not claimed: `(action == TOGGLE_LOAD) & ~agent.is_carrying` is a bitwise and/not on int32 that Engine J havocs, and
-        # the two evaluations would get unrelated havoc values)
+        # documented reaction ("check for invalid action -> turn into noops"): the step acts exactly as if the offending agents had
+        # played NOOP.  Compared on everything that does not depend on the request sampler (two evaluations of `step` draw
+        # independent sampler outcomes): floor grid, agent table, shelf positions, counter, next mask, step type, discount.
+        a_noop = jnp.where(ill, NOOP, a)
+        with K.with_attr(env, "time_limit", T):
+            s3, ts3 = env.step(s, a_noop)
+        for nm, x, y in (("grid", s2.grid, s3.grid), ("agents.position.x", s2.agents.position.x, s3.agents.position.x),
+                         ("agents.position.y", s2.agents.position.y, s3.agents.position.y), ("agents.direction", s2.agents.direction, s3.agents.direction),
+                         ("agents.is_carrying", s2.agents.is_carrying, s3.agents.is_carrying),
+                         ("shelves.position.x", s2.shelves.position.x, s3.shelves.position.x),
+                         ("shelves.position.y", s2.shelves.position.y, s3.shelves.position.y), ("action_mask", s2.action_mask, s3.action_mask),
+                         ("step_type", ts.step_type, ts3.step_type), ("discount", ts.discount, ts3.discount)):
+            out["C05.illegal_action_acts_exactly_as_noop." + nm] = x == y
         for k, v in ranges(env, s2.grid, s2.agents).items():
             out["C04.inv_" + k] = v
         return out
